@@ -178,13 +178,11 @@ func (d *DBFT[H]) OnTransaction(tx Transaction[H]) {
 	if i < 0 {
 		return
 	}
-	d.addTransaction(tx)
-	// `addTransaction` checks for responses and commits. If this was the last transaction
-	// Context could be initialized on a new height, clearing this field.
-	if len(d.MissingTransactions) == 0 {
-		return
-	}
+	// Remove the hash before processing the transaction: if this is the last
+	// one, addTransaction can change view (or even height) and refill
+	// MissingTransactions for a new proposal, the index is stale after that.
 	d.MissingTransactions = slices.Delete(d.MissingTransactions, i, i+1)
+	d.addTransaction(tx)
 }
 
 // OnTimeout advances state machine as if timeout was fired.
